@@ -1,7 +1,7 @@
 (* C01 property theorems. This file contains only statements closed by
    [exact lemma] and Print Assumptions. *)
 From V Require Import Common.Base C01.Utf C01.Quote C01.SpecLiteral C01.QuoteProofs.
-From V Require Import C01.Num C01.SpecNumeric C01.NumProofs C01.ScriptProofs.
+From V Require Import C01.Num C01.SpecNumeric C01.NumProofs C01.NumProofs2 C01.ScriptProofs.
 
 (* printQuotedUTF16: for EVERY sequence of UTF-16 code units (lone surrogates
    included), every configuration (charset, unicode-escape support,
@@ -72,19 +72,23 @@ Print Assumptions string_to_utf16_roundtrip_refuted.
 (* ---- numbers ---- *)
 
 (* the rewriting printNonNegativeFloat applies to FormatFloat's text keeps the
-   exact mathematical value (ECMA-262 MV), for EVERY text of the shapes
-     digits                                ("1000" => "1e3")
-     digits . digits                       (integer part not "0"; unchanged)
-     digits . digits e [+-]? digits        ("1.2e+24" => "12e23", "1.5e-07" => "15e-8", "1.2e+01" => "12")
-   (wider than what strconv emits: any number of integer digits, optional
-   sign, leading zeros in the exponent).  PARTIAL: the shapes "0.ddd"
-   (=> ".ddd" / "de-n") and "d e[+-]dd" without a dot are not covered by this
-   theorem; they are tied only by the correspondence run and the value oracle. *)
-Theorem shorten_value_partial : forall mw s,
-  form_int s \/ form_dot s \/ form_dot_exp s ->
-  exists a b, mv (shorten mw s) = Some a /\ mv s = Some b /\ dec_eq a b.
-Proof. exact shorten_value_forms. Qed.
-Print Assumptions shorten_value_partial.
+   exact mathematical value (ECMA-262 MV), for EVERY text of the shape
+   strconv.FormatFloat(v,'g'/'e',-1,64) can produce for a finite v >= 0
+   ([float_text]: digits | digits.digits | 0.digits not all zero |
+   digits[.digits]e[+-]digits with a non-zero exponent), in fact for a wider
+   set (any number of integer digits, optional sign, leading zeros in the
+   exponent).  Examples: "1000" => "1e3", "0.001" => "1e-3" / ".001",
+   "1.2e+24" => "12e23", "1.5e-07" => "15e-8", "1.2e+01" => "12", "1e+21" => "1e21". *)
+Theorem shorten_value : forall mw s,
+  float_text s -> exists a b, mv (shorten mw s) = Some a /\ mv s = Some b /\ dec_eq a b.
+Proof. exact shorten_value_all. Qed.
+Print Assumptions shorten_value.
+
+(* the executable recogniser the correspondence run evaluates on every text
+   strconv really produced accepts only texts of that shape *)
+Theorem float_text_recogniser_sound : forall s, float_text_b s = true -> float_text s.
+Proof. exact float_text_b_sound. Qed.
+Print Assumptions float_text_recogniser_sound.
 
 (* "0x" ++ FormatUint(v,16) is a HexIntegerLiteral whose MV is exactly v *)
 Theorem hex_path_exact : forall v, 0 <= v < 16 ^ 64 -> mv ([48; 120] ++ to_hex v) = Some (v, 0).
@@ -96,11 +100,25 @@ Theorem small_int_exact : forall v, 0 <= v < 10 ^ 64 -> mv (smallIntToBytes v) =
 Proof. exact small_int_value. Qed.
 Print Assumptions small_int_exact.
 
-(* printNonNegativeFloat as a whole (same shapes): the bytes printed denote
-   either the value of FormatFloat's text or exactly the float's integer value *)
-Theorem print_float_value_partial : forall mw bits s,
-  0 <= bits -> form_int s \/ form_dot s \/ form_dot_exp s ->
+(* printNonNegativeFloat as a whole: the bytes printed are a JS numeric literal
+   denoting either exactly the value of FormatFloat's text or exactly the
+   float's integer value (small-integer and hex paths) *)
+Theorem print_float_value : forall mw bits s,
+  0 <= bits -> float_text s ->
   let out := fst (printNonNegativeFloat mw bits s) in
   value_preserved out s \/ exists v, float_int bits = Some v /\ mv out = Some (v, 0).
-Proof. exact print_float_value. Qed.
-Print Assumptions print_float_value_partial.
+Proof. exact print_float_value_all. Qed.
+Print Assumptions print_float_value.
+
+(* the same with the trusted facts about strconv named: IF FormatFloat's text
+   has the documented shape THEN for every float64 the printed literal denotes
+   the value of that text or exactly the float.  (That the text's value rounds
+   back to the float - the shortest-round-trip property - is the remaining
+   trusted fact; the harness checks it per case with exact arithmetic.) *)
+Theorem print_number_literal_value : forall (FormatFloat : Z -> bytes),
+  (forall bits, 0 <= bits -> float_text (FormatFloat bits)) ->
+  forall mw bits, 0 <= bits ->
+    let out := fst (printNonNegativeFloat mw bits (FormatFloat bits)) in
+    value_preserved out (FormatFloat bits) \/ exists v, float_int bits = Some v /\ mv out = Some (v, 0).
+Proof. exact print_number_literal_value_all. Qed.
+Print Assumptions print_number_literal_value.
